@@ -513,26 +513,38 @@ def check_evaluator_slots(ctx):
 
 
 def check_branch_slot(ctx, f, call, slot, table, label):
+    """slot value defined by cases; `table` maps a tuple of (guard key, polarity) to the value text.  The canonical form
+    of such a definition is one (nested) conditional expression; its cases are flattened and compared with the table."""
     sc = ctx.scope(f)
     val = [kw.value for kw in call.keywords if kw.arg == slot]
     if not val:
         return
     v = val[0]
-    if not isinstance(v, ast.Name):
-        ctx.fail("%s slot %s" % (label, slot), detail="unrecognised shape", expected="a local defined per branch", found=ast.unparse(v), fi=f, node=call)
-        return
-    # follow plain aliases (x = y) down to the name that is defined per branch
-    name = v.id
-    for _ in range(4):
-        ds = [d for d in sc.defs.get(name, []) if d.kind == "assign"]
-        if len(ds) == 1 and isinstance(ds[0].value, ast.Name) and ds[0].value.id in sc.defs:
-            name = ds[0].value.id
-        else:
-            break
-    defs = S.branch_defs(sc, name, lambda: Norm(sc, expand=False))
+    n = ctx.norm(f)
+    # follow plain aliases (x = y) down to the defining expression
+    for _ in range(6):
+        if isinstance(v, ast.Name):
+            ds = [d for d in sc.defs.get(v.id, []) if d.kind == "assign"]
+            if len(ds) == 1:
+                v = ds[0].value
+                continue
+        break
     got = {}
-    for gs, p in defs or []:
-        got[tuple(gs)] = str(p)
+
+    def flat(node, conds):
+        if isinstance(node, ast.IfExp):
+            k = Norm(None).key(node.test)
+            flat(node.body, conds + ((k, True),))
+            flat(node.orelse, conds + ((k, False),))
+        else:
+            got[conds] = str(Norm(None).poly(node))
+    if isinstance(v, ast.Name):
+        # still defined per branch by statements: collect the branch definitions
+        defs = S.branch_defs(sc, v.id, lambda: Norm(sc, expand=False))
+        for gs, p in defs or []:
+            got[tuple(gs)] = str(p)
+    else:
+        flat(v, ())
     want = {k: str(expected(t)) for k, t in table.items()}
     ctx.check(got == want, "%s slot %s" % (label, slot), detail="quadrature state at the wrong point", expected=want, found=got, fi=f, node=call)
 
